@@ -23,6 +23,8 @@ def ops_job(op, elem, n, cap, fmask=0, alias=0, afl=0, maxcnt=2, size=None, std=
     defs = {'VF_ELEM': elem, 'VF_N': n, 'VF_CAP': cap, 'VF_OP': 'OP_' + op, 'VF_FMASK': fmask, 'VF_ALIAS': alias,
             'VF_AFL': afl, 'VF_MAXCNT': maxcnt, 'VF_MAXCAP': maxcap}
     if size is not None: defs['VF_SIZE'] = size
+    if op.endswith('_il') and elem != 'int' and fmask and not (extra_defs and 'VF_B' in extra_defs):
+        defs['VF_B'] = 2; tag += '-b2'   # initializer-list ops instantiate one call site per length: pin the length when faults are on
     if extra_defs: defs.update(extra_defs)
     name = 'ops-%s-%s-N%d-c%d%s%s%s%s%s' % (op, elem.replace(' ', ''), n, cap, '-f%d' % fmask if fmask else '', '-alias' if alias else '',
                                           '-a%d' % afl if afl else '', '-s%d' % size if size is not None else '', tag)
@@ -44,3 +46,27 @@ def cells(tier):
 def elem_supports(elem, op):
     if elem in ('TrM', 'TrMX') and op in OPS_NEED_COPY: return False
     return True
+
+A_POCCA, A_POCMA, A_POCS, A_IAE, A_SOCC, A_MAXSZ, A_NOTHROW = 1, 2, 4, 8, 16, 32, 64
+OPS2_ALL = ['copy_ctor', 'move_ctor', 'copy_ctor_alloc', 'move_ctor_alloc', 'copy_assign', 'move_assign', 'swap', 'nm_swap',
+            'assign_copy', 'assign_move', 'append_copy', 'append_move']
+OPS2_SAME_N = {'swap', 'nm_swap', 'copy_assign', 'move_assign', 'copy_ctor', 'move_ctor', 'copy_ctor_alloc', 'move_ctor_alloc'}
+
+def two_job(op, elem, na, nb, capa, capb, afl=0, ideq=1, fmask=0, nfaults=1, std='c++17', witness=None, extra_defs=None, tag='', followup=None, sizea=None, sizeb=None):
+    if op in ('swap', 'nm_swap', 'copy_assign', 'move_assign') and na != nb: return None   # same-type only
+    ctor = op.endswith('ctor') or op.endswith('ctor_alloc')
+    if ctor: capa = na
+    if followup is None: followup = 0 if elem.startswith('Tr') else 1
+    maxcap = (2 * max(capa + capb, 2 * max(capa, capb)) + 2) if followup else max(2 * max(capa, capb), capa + capb, 2) + 2
+    defs = {'VF_FOLLOWUP': followup, 'VF_ELEM': elem, 'VF_NA': na, 'VF_NB': nb, 'VF_CAPA': capa, 'VF_CAPB': capb, 'VF_OP': 'OP_' + op, 'VF_AFL': afl,
+            'VF_IDEQ': ideq, 'VF_FMASK': fmask, 'VF_NFAULTS': nfaults, 'VF_MAXCAP': maxcap}
+    if sizea is not None: defs['VF_SIZEA'] = sizea; tag += '-sa%d' % sizea
+    if sizeb is not None: defs['VF_SIZEB'] = sizeb; tag += '-sb%d' % sizeb
+    if extra_defs: defs.update(extra_defs)
+    name = 'two-%s-%s-N%d.%d-c%d.%d-a%d-%s%s%s' % (op, elem, na, nb, capa, capb, afl, 'eq' if ideq else 'ne', '-f%d' % fmask if fmask else '', tag)
+    if std != 'c++17': name += '-' + std.replace('+', 'p')
+    w = ['normal return'] if witness is None else witness
+    return Job(name, 'two', defs, elems=[ELEM_IR[elem]], std=std, unwind=max(maxcap, 6) + 2, maxalloc=maxcap, minalloc=min(na, nb) + 1,
+               expect_witness=w,
+               desc='%s: small_vector<%s,%d> (cap %d) <- small_vector<%s,%d> (cap %d), allocator flags %d, ids %s%s' % (
+                   op, elem, na, capa, elem, nb, capb, afl, 'equal' if ideq else 'unequal', ', faults kinds=%d' % fmask if fmask else ''))
